@@ -84,3 +84,39 @@ claim("C28", "E3-chain", "exploration", "per-transaction oracle on observed pre-
 claim("C36", "E3-chain", "exploration", "per-transaction oracle over every ACL key read from chain state x signer relation (owner / owner of another key / stranger) plus DAO and upgrade actions",
       "for every parameter key in the chain's own ACL (41 after feature activation) change-param by owner, owner-of-another-key and stranger: non-owners must leave the params store untouched, owner changes must store exactly the submitted value and nothing else; DAO transfers/burns up to and beyond the balance by owner and non-owner; exhaustive over keys, sampled values/orders",
       TXNOTE, "DESIGN.md §4 C36")
+
+E6NOTE = "trusted: Go runtime and stdlib crypto/math; the independent reference implementation named in the technique; coverage = generated inputs listed in the evidence"
+ENGINES[-1]["serves_properties"] += ["C27", "C29", "C30", "C38", "C39", "C40", "C41"]
+ENGINES[0]["serves_properties"] += ["C05"]
+ENGINES[-2]["serves_properties"] += ["C12"]
+claim("C05", "E1-kvmodel", "exploration", "runtime monitor: every present/absent key of generated committed trees queried with proof and verified against the recorded app hash; every single-field mutation operator applied to the decoded proof must fail verification",
+      "completeness over all present keys and absent keys in every gap (incl. before first / after last / extensions of present keys) of generated multi-version multistores, soundness over an explicit list of single-field mutation operators on value, absence and multistore proof ops; one malleability defect was repaired (fix: commit), four completeness defects of absence proofs are listed as known findings; held-on-observed otherwise",
+      MSNOTE, "DESIGN.md §4 C05")
+claim("C12", "E3-chain", "exploration", "differential re-execution: same generated history in 6 fresh processes (3x plain, GOMAXPROCS=1, race-detector build, block timestamps moved past the local clock), per-tx results and app hashes compared block by block",
+      "histories biased to the known nondeterminism mechanisms (map-ordered delegator payouts creating new accounts, unjail around the jail deadline, proposer rewards every block); any divergence between runs is a witness; two genuine defects found this way were repaired by fix: commits; held-on-observed",
+      E3NOTE + "; wall-clock dimension exercised by shifting block timestamps from 2015 to 2040 (tx results compared, app hashes not comparable across time bases)", "DESIGN.md §4 C12")
+claim("C27", "E6-ref", "exploration", "runtime monitor on the real keeper over parameter/stake grids with a Newton-iteration counter hook (H2): termination by logical steps, non-negativity, monotonicity, plateau above the ceiling",
+      "all 101 exponents x floor/ceiling/weight grids x stakes around every bin edge and beyond the ceiling, reward and challenge burn observed on a real keeper over an in-memory store; termination judged on counted iterations (max seen 179, bound 10000); three genuine non-monotonicity defects are listed as known findings",
+      E6NOTE + "; hook H2 types/verif_on.go", "DESIGN.md §4 C27")
+claim("C29", "E6-ref", "exploration", "exhaustive-per-tree runtime monitor: every leaf index of generated relay sets verified and cross-checked against an independent Merkle-sum-index reference tree",
+      "set sizes 5..130 plus every 2^k-1/2^k/2^k+1 up to 1025 (thorough: to 1100), both hashing modes, every leaf index: generated proof validates against generated root with keeper-derived levels and equals the reference tree's root/siblings; exhaustive over indices per tree, sampled sets",
+      E6NOTE + " (internal/ref/merkleref)", "DESIGN.md §4 C29")
+claim("C30", "E6-ref", "exploration", "mutation-operator runtime monitor on valid (proof, leaf, root) triples + duplicate-multiset trees with zero-width ranges",
+      "hundreds of thousands of single-field mutants (leaf fields, target index, sibling hashes/ranges, root, swapped siblings, foreign proofs) must fail validation; zero-width paths must be rejected as replay; one genuine forgery (split-point of a duplicated relay) is listed as known finding in both hashing modes",
+      E6NOTE + " (internal/ref/merkleref)", "DESIGN.md §4 C30")
+claim("C38", "E6-ref", "exploration", "round-trip runtime monitor over 38 registered types x {amino, proto, proto at switch height, JSON, param JSON} with a reflection-based structural oracle; sign-bytes canonicity probes",
+      "generated values (empty, maximal, nil vs empty, extreme ints, unicode and invalid UTF-8) through every codec route: decode(encode(v)) == v structurally and encode(decode(encode(v))) == encode(v); sign bytes invariant under map/field order and sensitive to every signed field; one defect repaired (fix: commit), three listed as known findings",
+      E6NOTE, "DESIGN.md §4 C38")
+claim("C39", "E6-ref", "exploration", "differential runtime monitor vs Go stdlib ed25519 / ecdsa-over-secp256k1 oracles and a strict multisignature codec; single-byte mutation and permutation operators",
+      "sign/verify for ed25519, secp256k1 and 2-8 member (nested) multisig keys; every single-byte mutation of message or signature, foreign keys, truncation/extension, permuted/missing/duplicated member signatures must fail; encodings stable through hex/raw/amino/JSON; multisig signature malleability via lenient amino decoding is listed as three known findings",
+      E6NOTE, "DESIGN.md §4 C39")
+claim("C40", "E6-ref", "exploration", "runtime monitor: armor encrypt/decrypt with right/wrong passphrases and armor mutations; keybase (memory + on-disk) operation sequences vs a map model",
+      "right passphrase returns the identical key, wrong passphrases (empty, unicode, prefix/suffix/case variants) and mutated salt/ciphertext/kdf never return a key; generated create/import/export/list/get/update/sign/delete sequences agree with an address->key map; HMAC-equivalent passphrases are listed as a known finding",
+      E6NOTE + "; scrypt cost bounds the quick tier to ~200 KDF evaluations", "DESIGN.md §4 C40")
+claim("C41", "E6-ref", "exploration", "differential runtime monitor vs map[string]*big.Int multisets and big.Int/big.Rat arithmetic with explicit rounding rules",
+      "50k (thorough 5M) operand pairs over a 4-letter denomination alphabet and amounts {0, +-1, small, 2^63+-1, 2^255+-1}: Add/Sub/SafeSub/comparisons per denomination, canonical results, negative results reported, overflow panics instead of wrapping, decimal rounding rules; held-on-observed",
+      E6NOTE, "DESIGN.md §4 C41")
+claim("C42", "E7-indexer", "exploration", "differential runtime monitor: real TransactionIndexer (MemDB and on-disk goleveldb) fed generated block results vs a sorted reference slice; every page size swept",
+      "generated chain segments with shared signers/recipients, ante failures (not indexed), replayed bytes and digit-count-boundary heights; Get by hash, Search by height/signer/recipient in both directions for every page size 1..n+1: contents, order, totals, no skip/repeat; the asc/desc inversion is listed as a known finding and everything else is still checked modulo that inversion",
+      "trusted: Go runtime, tm-db, the sorted-slice reference", "DESIGN.md §4 C42")
+ENGINES.append({"name": "E7-indexer", "path": "internal/checks/c42_indexer.go", "serves_properties": ["C42"], "kind_free_text": "indexer harness over MemDB and goleveldb with a sorted-slice reference"})
